@@ -649,7 +649,8 @@ reg("C10", lambda env: [c10_layer(env)], ["CPython's zoneinfo and glibc 2.36 are
 # ------------------------------------------------------------------------------------------------
 # thorough-tier sanitizer layers: libFuzzer + ASan targets with the oracles inside, valgrind memcheck
 
-def fuzz_layer(env, target, seconds, seeds_dir=None, max_len=None):
+def fuzz_layer(env, target, seconds, seeds_dir=None, max_len=None, prop=None):
+    """prop: for target `model` (input = decision tape of the harness' generators), the property whose oracle runs."""
     @layer("libfuzzer-" + target)
     def f():
         fuzz_dir = os.path.join(env.here, "fuzz")
@@ -658,9 +659,11 @@ def fuzz_layer(env, target, seconds, seeds_dir=None, max_len=None):
         binary = os.path.join(fuzz_dir, "target", "x86_64-unknown-linux-gnu", "release", target)
         if rc != 0 or not os.path.exists(binary):
             raise LayerInconclusive("cargo fuzz build failed: %s" % err.strip()[-400:])
-        corpus = os.path.join(fuzz_dir, "corpus", target)
+        corpus = os.path.join(fuzz_dir, "corpus", target + ("-" + prop if prop else ""))
         os.makedirs(corpus, exist_ok=True)
-        art = os.path.join(env.work, "fuzz-artifacts-%s" % target)
+        if prop:
+            e["TZMON_FUZZ_PROP"] = prop
+        art = os.path.join(env.work, "fuzz-artifacts-%s%s" % (target, "-" + prop if prop else ""))
         shutil.rmtree(art, ignore_errors=True)
         os.makedirs(art)
         cmd = [binary, "-max_total_time=%d" % seconds, "-timeout=10", "-rss_limit_mb=4096", "-fork=%d" % max(2, min(12, env.threads - 2)), "-ignore_crashes=0", "-ignore_timeouts=0", "-ignore_ooms=0", "-seed=%d" % env.seed, "-artifact_prefix=%s/" % art, "-print_final_stats=1"]
@@ -686,11 +689,14 @@ def fuzz_layer(env, target, seconds, seeds_dir=None, max_len=None):
             what = "libFuzzer target %s: %s" % (target, "monitor violation" if mv else "crash / sanitizer report / timeout")
             keep = None
             if arts:
-                keep = os.path.join(env.here, "replays", "fuzz-%s-%s" % (target, arts[0]))
+                keep = os.path.join(env.here, "replays", "fuzz-%s-%s" % (target + ("-" + prop if prop else ""), arts[0]))
                 shutil.copy(os.path.join(art, arts[0]), keep)
             violations.append(viol(what, "artifact %s" % keep, "no crash, no sanitizer report, oracle silent", (mv.group(1) if mv else log.strip()[-500:])[:600], env.seed))
         shutil.rmtree(art, ignore_errors=True)
         inconc = [] if execs > 0 or violations else ["libFuzzer executed nothing: %s" % log.strip()[-300:]]
+        herr = re.search(r"TZMON-FUZZ-HARNESS-ERROR (.*)", log)
+        if herr and not violations:
+            inconc.append("harness error inside the libFuzzer target (not a verdict on tz-rs): %s" % herr.group(1)[:300])
         return {"name": "libfuzzer-" + target, "profile": "asan+overflow-checks", "evaluations": execs, "violations": violations, "replay_spec": None, "sanitizer_reports": len(violations),
                 "extra": {"seconds": seconds, "executions": execs, "edge_coverage_final": cov[-1] if cov else None}, "samples": [{"target": target, "executions": execs, "coverage_edges": cov[-1] if cov else None}], "inconclusive": inconc}
     return f
@@ -877,10 +883,15 @@ for _line in open(os.path.join(os.path.dirname(os.path.abspath(__file__)), "..",
     ANCHORS[_p["id"]] = [f.split("src/", 1)[1] if "src/" in f else f for f in _p["anchors"].get("files", [])]
 
 
+MODEL_FUZZ_PROPS = ("C03", "C04", "C05", "C06", "C12", "C13", "C17")
+
+
 def with_thorough_extras(base, asan_scale=None, cov_scale=0.05):
     def f(env):
         ls = base(env)
         if not env.quick():
+            if env.prop in MODEL_FUZZ_PROPS:
+                ls.append(fuzz_layer(env, "model", int(os.environ.get("VERIF_FUZZ_SECONDS", "90")), max_len=512, prop=env.prop))
             if asan_scale:
                 ls.append(asan_layer(env, asan_scale))
             ls.append(coverage_layer(env, cov_scale, ANCHORS.get(env.prop, [])))
